@@ -459,7 +459,7 @@ func runBytes(c *mc.Ctx, r *mc.Result) {
 func runStructured(c *mc.Ctx, r *mc.Result) {
 	segs := []string{"a", "{}", "*{}", "a*{}", "a{}"}
 	depth := 4
-	prefixes := []string{"", "{h}.b", "a.{h}"}
+	prefixes := []string{"", "{h}.b", "a.{h}", "{h}.{t}.b", "{h}.{t}", "a{h}.{t}.b.{u}"}
 	r.Bounds["structured"] = fmt.Sprintf("all patterns of <=%d segments over %v (+ trailing slash variants) x hostname prefixes %q, each accepted one instantiated with every value combination from {a,b,ab} (catch-alls also a/b, hostname labels also 1, 10)", depth, segs, prefixes)
 	idx := 0
 	for _, pre := range prefixes {
